@@ -300,7 +300,9 @@ impl Matcher {
         #[allow(clippy::cast_possible_truncation)]
         match self.modifiers.xor_start {
             Some(start) => {
-                if self.modifiers.wide {
+                // The literals are split in two halves (ascii then wide) only if the string
+                // is both ascii and wide.
+                if self.modifiers.wide && self.modifiers.ascii {
                     match literal_index.checked_sub(self.literals.len() / 2) {
                         Some(index) => start + (index as u8),
                         None => start + (literal_index as u8),
